@@ -161,6 +161,33 @@ def replay(steps, role, interval, count_max):
                                        f'{got[key]!r} model={want[key]!r}')
                     break
             if res['diverged']:
+                # the model no longer describes the run; the property does
+                # not need it: the peer falls silent now, and within
+                # (count_max + 1) intervals of the last input the connection
+                # has to be given up
+                if not got['lost']:
+                    w.do(('silent',))
+                    t_silent = got['now']
+                    for _ in range(int((count_max + 2) * interval) + 2):
+                        w.do(('tick',))
+                    end = w.observe()
+                    if not end['lost']:
+                        res['l1'].append(
+                            f'DeadPeerDetected: peer silent since t='
+                            f'{t_silent}, still not given up at t='
+                            f'{end["now"]} (interval {interval}, count max '
+                            f'{count_max}; after a model divergence)')
+                    else:
+                        w.pair.loop.run_until_idle()
+                        hung = [repr(t.get_coro())[:80] for t in w.waiters
+                                if not t.done()]
+                        for t in w.waiters:
+                            if t.done() and not t.cancelled():
+                                t.exception()
+                        if hung:
+                            res['l1'].append(
+                                f'AllWaitersResolved: connection given up '
+                                f'but still pending: {hung}')
                 break
             # ---- property monitors on observations ----
             bound = (count_max + 1) * interval
